@@ -326,10 +326,19 @@ func c09(r *core.Run) {
 				l, ok := isBuiltinCall(y, "len")
 				return ok && l.Call.Args[0] == ssa.Value(data)
 			}, "<"))
-			okLoop = zero && step && len(bound) > 0
+			// equivalent for whole references (and safe for a payload that is not a
+			// multiple of the reference length): cursor + refLength <= len(data)
+			bound2, _ := core.AtomEdges(pc, cmpAtom(func(v ssa.Value) bool {
+				add, isAdd := v.(*ssa.BinOp)
+				return isAdd && add.Op == token.ADD && add.X == ssa.Value(phi) && loadsField(J, "refLength")(core.Forward(add.Y))
+			}, func(y ssa.Value) bool {
+				l, ok := isBuiltinCall(y, "len")
+				return ok && l.Call.Args[0] == ssa.Value(data)
+			}, "<="))
+			okLoop = zero && step && (len(bound) > 0 || len(bound2) > 0)
 		}
 		r.Check("C09.F1", core.Key("C09.F1", pc, "loop covers the whole chunk in reference steps"), c.Pos(), okLoop,
-			"the loop visits every reference of the intermediate chunk (cursor from 0 to len(data) in refLength steps)", "the reference loop does not run cursor = 0; cursor < len(data); cursor += refLength")
+			"the loop visits every whole reference of the intermediate chunk (cursor from 0 to len(data) in refLength steps)", "the reference loop does not run cursor = 0; cursor < len(data) (or cursor+refLength <= len(data)); cursor += refLength")
 		// first thing in the iteration: from the loop header to the callback no other branch out
 		h := loopHeader(pc, c.Block())
 		okFirst := h != nil
